@@ -293,34 +293,37 @@ def mpz_lcm (r u v : Nat) (s : St) : R St := do
 
 /-! ## mpz_invert -/
 
+/-- invert.c:46-71: the two locals, mpz_gcdext, the test of the gcd, the positive representative -/
+def invertMain (inverse x n xsize nsize : Nat) (s : St) : R (Bool × St) := do
+  let size := max xsize nsize + 1                             -- invert.c:39
+  let t1 := s.tmpInit size                                    -- :48 MPZ_TMP_INIT (gcd, size)
+  let t2 := t1.2.tmpInit size                                 -- :49 MPZ_TMP_INIT (tmp, size)
+  let xl ← t2.2.load (t2.2.ptr x) xsize                       -- :50 mpz_gcdext (gcd, tmp, NULL, x, n)
+  let nl ← t2.2.load (t2.2.ptr n) nsize
+  let ge := Gcd.mpz_gcdext (sgnv (s.size x) (val xl)) (sgnv (s.size n) (val nl))
+  let s ← t2.2.setInt t1.1 ge.1
+  let s ← s.setInt t2.1 ge.2.1
+  let g0 ← limbAt s (s.ptr t1.1) 0                            -- :53 PTR (gcd)[0]  (ALLOC (gcd) = size ≥ 1)
+  if s.size t1.1 ≠ 1 ∨ g0 ≠ 1 then                            -- :53
+    pure (false, s.tmpDone.tmpDone)                           -- :55-56
+  else do
+    let s ← (if s.size t2.1 < 0 then                          -- :60
+        (if s.size n < 0 then mpz_sub inverse t2.1 n s        -- :62-63
+         else mpz_add inverse t2.1 n s)                       -- :65
+      else mpz_set inverse t2.1 s)                            -- :68
+    pure (true, s.tmpDone.tmpDone)                            -- :70-71
+
 /-- mpz_invert (inverse, x, n): mpz/invert.c:29-72.  Returns (return value ≠ 0, state).  mpz_gcdext (gcd, tmp, NULL, x, n)
     (:50) writes only the two locals; it is taken at its value (`Gcd.mpz_gcdext`).  `inverse` is written only at :63-68,
     by mpz_sub / mpz_add / mpz_set from the local `tmp` and n — after the last read of x. -/
 def mpz_invert (inverse x n : Nat) (s : St) : R (Bool × St) := do
   let xsize := (s.size x).natAbs                              -- invert.c:35, :37
   let nsize := (s.size n).natAbs                              -- :36, :38
-  let size := max xsize nsize + 1                             -- :39
   if xsize = 0 then pure (false, s)                           -- :43-44
   else do
     let n0 ← (if nsize = 1 then limbAt s (s.ptr n) 0 else pure 0)   -- :43 (PTR (n))[0], evaluated only when nsize == 1
     if nsize = 1 ∧ n0 = 1 then pure (false, s)                -- :43-44
-    else do
-      let t1 := s.tmpInit size                                -- :48 MPZ_TMP_INIT (gcd, size)
-      let t2 := t1.2.tmpInit size                             -- :49 MPZ_TMP_INIT (tmp, size)
-      let xl ← t2.2.load (t2.2.ptr x) xsize                   -- :50 mpz_gcdext (gcd, tmp, NULL, x, n)
-      let nl ← t2.2.load (t2.2.ptr n) nsize
-      let ge := Gcd.mpz_gcdext (sgnv (s.size x) (val xl)) (sgnv (s.size n) (val nl))
-      let s ← t2.2.setInt t1.1 ge.1
-      let s ← s.setInt t2.1 ge.2.1
-      let g0 ← limbAt s (s.ptr t1.1) 0                        -- :53 PTR (gcd)[0]  (ALLOC (gcd) = size ≥ 1)
-      if s.size t1.1 ≠ 1 ∨ g0 ≠ 1 then                        -- :53
-        pure (false, s.tmpDone.tmpDone)                       -- :55-56
-      else do
-        let s ← (if s.size t2.1 < 0 then                      -- :60
-            (if s.size n < 0 then mpz_sub inverse t2.1 n s    -- :62-63
-             else mpz_add inverse t2.1 n s)                   -- :65
-          else mpz_set inverse t2.1 s)                        -- :68
-        pure (true, s.tmpDone.tmpDone)                        -- :70-71
+    else invertMain inverse x n xsize nsize s                 -- :46-71
 
 /-- what the examples look at -/
 def look (r : R St) (k : Nat) : R (List (Int × Nat × Nat)) := r.map (·.view k)
